@@ -234,6 +234,42 @@ pub fn gen_stop_last_child_project(rng: &mut Rng, nodes: &[N]) -> Option<(Projec
   None
 }
 
+/// A negated sub-rule that mentions a variable bound OUTSIDE the `not`: `{pattern: $X, kind: K, not: {precedes: {pattern: $X,
+/// stopBy: end}}}` (or `follows`) built around a leaf node that has later (earlier) named siblings: the node matches
+/// exactly when none of them is the same code.  Returns the project, the node's index and the expected verdict.
+pub fn gen_not_outer_var_project(rng: &mut Rng, nodes: &[N]) -> Option<(Project, usize, bool)> {
+  let forward = rng.chance(1, 2);
+  // half of the time a node that does have a twin among the siblings looked at (if the tree has one)
+  let twins: Vec<usize> = if rng.chance(1, 2) {
+    (0..nodes.len()).filter(|i| {
+      let n = &nodes[*i];
+      n.is_named() && n.child(0).is_none() && !n.range().is_empty() && {
+        let mut sibs: Box<dyn Iterator<Item = N>> = if forward { Box::new(n.next_all()) } else { Box::new(n.prev_all()) };
+        sibs.any(|s| s.kind_id() == n.kind_id() && s.child(0).is_none() && s.text() == n.text())
+      }
+    }).collect()
+  } else { vec![] };
+  for _ in 0..80 {
+    let ni = if twins.is_empty() { rng.below(nodes.len()) } else { *rng.pick(&twins) };
+    let n = nodes[ni].clone();
+    if !n.is_named() || n.child(0).is_some() || n.range().is_empty() {
+      continue;
+    }
+    let sibs: Vec<N> = if forward { n.next_all().collect() } else { n.prev_all().collect() };
+    if !sibs.iter().any(|s| s.is_named()) {
+      continue;
+    }
+    // the same code: a leaf of the same kind with the same text
+    let twin = sibs.iter().any(|s| s.kind_id() == n.kind_id() && s.child(0).is_none() && s.text() == n.text());
+    let inner = RObj { keys: vec![RKey::Pattern { text: "$X".into(), selector: None, strictness: None }] };
+    let rel = Box::new(Rel { rule: inner, stop: Stop::End, field: None });
+    let neg = RObj::one(if forward { RKey::Precedes(rel) } else { RKey::Follows(rel) });
+    let rule = RObj { keys: vec![RKey::Pattern { text: "$X".into(), selector: None, strictness: None }, RKey::Kind(n.kind().to_string()), RKey::Not(Box::new(neg))] };
+    return Some((Project { rule, utils: vec![], constraints: vec![] }, ni, !twin));
+  }
+  None
+}
+
 /// `inside` with `field` that has to pass over a nearer ancestor: two ancestors of the same kind, the nearer one
 /// containing the node through ANOTHER field than the farther one.  The inner rule `{kind: K, pattern: $R0}` has
 /// the nearer ancestor's shape and binds $R0 to it; the field test rejects it, and nothing of that attempt may be
@@ -359,7 +395,14 @@ pub fn run_stream(o: &Opts, which: &str) {
         let stop_last = if retry.is_none() && field_stop.is_none() && wide_range.is_none() && rng.chance(1, 6) { gen_stop_last_child_project(&mut rng, &dc.nodes) } else { None };
         let field_retry = if shared && retry.is_none() && field_stop.is_none() && wide_range.is_none() && stop_last.is_none() && rng.chance(1, 5) { gen_inside_field_retry_project(&mut rng, &dc.nodes) } else { None };
         let mut far_ancestor: Option<(usize, usize, u16)> = None;
-        let p = if let Some((p, ni, a2)) = field_retry {
+        let not_outer = if shared && !zero_width && retry.is_none() && field_stop.is_none() && wide_range.is_none() && stop_last.is_none() && field_retry.is_none() && rng.chance(1, 6) { gen_not_outer_var_project(&mut rng, &dc.nodes) } else { None };
+        let mut not_outer_want: Option<bool> = None;
+        let p = if let Some((p, ni, want)) = not_outer {
+          out.count("gen:not-mentions-an-outer-variable");
+          witness_idx = Some(ni);
+          not_outer_want = Some(want);
+          p
+        } else if let Some((p, ni, a2)) = field_retry {
           out.count("gen:inside-field-passes-over-a-nearer-ancestor");
           witness_idx = Some(ni);
           far_ancestor = Some(a2);
@@ -435,6 +478,18 @@ pub fn run_stream(o: &Opts, which: &str) {
           let got = catch_unwind(AssertUnwindSafe(|| core.match_node(n.clone()).map(|nm| nm.get_env().get_match("R0").map(|r| (r.range().start, r.range().end, r.kind_id()))))).unwrap_or(None);
           if got != Some(Some((as_, ae, ak))) {
             out.oracle_fail("", &format!("{lang}: `inside` with field must pass over a nearer ancestor of the same kind (reached through another field) and bind $R0 to the farther one at {as_}..{ae}; got {got:?} for node {:?}; rule {}", n.text().chars().take(80).collect::<String>(), serde_json::to_string(&p.yaml()).unwrap()),
+              json!({"stream": which, "rule": p.yaml(), "source": src, "lang": lang.to_string()}));
+          }
+        }
+        // direct oracle of the negation construction: the variable inside `not` is the one bound outside it
+        if let (Some(wi), Some(want)) = (witness_idx, not_outer_want) {
+          let n = dc.nodes[wi].clone();
+          out.checked();
+          out.count(if want { "not-outer-variable:no-twin(matches)" } else { "not-outer-variable:twin(rejected)" });
+          let got = catch_unwind(AssertUnwindSafe(|| core.match_node(n.clone()).is_some())).unwrap_or(!want);
+          if got != want {
+            out.oracle_fail("", &format!("{lang}: the node {:?} has {} sibling that is the same code, so `not: {{precedes/follows: {{pattern: $X}}}}` with $X bound to the node itself must {}; it does not; rule {}",
+              n.text().chars().take(60).collect::<String>(), if want { "no" } else { "a" }, if want { "hold and the node match" } else { "fail and the node be rejected" }, serde_json::to_string(&p.yaml()).unwrap()),
               json!({"stream": which, "rule": p.yaml(), "source": src, "lang": lang.to_string()}));
           }
         }
